@@ -201,7 +201,10 @@ def v_oracle(case):
                     return ("validate_%s accepts a header list breaking rule '%s' (op %d): %r" % (KINDS[kind], broken, i, headers),
                             {"site": "validate_headers", "kind": KINDS[kind], "rule": broken})
                 d = declared_content_length(headers)
-                if kind in (0, 1) and d not in ("conflicting",) and ecl != d:
+                if d == "conflicting":
+                    return ("validate_%s accepts conflicting content-length declarations (op %d): %r" % (KINDS[kind], i, headers),
+                            {"site": "validate_headers", "kind": KINDS[kind], "rule": "content-length-conflicting"})
+                if kind in (0, 1) and ecl != d:
                     return ("validate_%s stored expected_content_length=%r for declared %r (op %d)" % (KINDS[kind], ecl, d, i),
                             {"site": "validate_headers", "kind": KINDS[kind], "rule": "expected-content-length"})
                 if ecl is not None and ecl < 0:
